@@ -286,6 +286,43 @@ def handleChain (args : List String) : Option Out :=
   | _ => none
 
 
+/-! ### qcase -/
+
+def okType (x : String) : Bool :=
+  let cs := x.toList
+  !cs.isEmpty && cs.length ≤ 8 && cs.all (fun c => c.isAlphanum) && (cs.headD ' ').isAlpha
+
+def insertSorted (x : String) : List String → List String
+  | [] => [x]
+  | y :: ys => if x < y then x :: y :: ys else y :: insertSorted x ys
+
+def sortStrs (xs : List String) : List String := xs.foldl (fun acc x => insertSorted x acc) []
+
+def qcaseStr (count : Bool) (rows : List (Nat × Nat)) : String :=
+  if count then toString rows.length
+  else if rows.isEmpty then "norows"
+  else joinWith ";" (sortStrs (rows.map fun r => s!"{r.1}|{r.2}"))
+
+def handleQcase (args : List String) : Option Out :=
+  match args with
+  | ["qcase", n, e, stored, q, hops, fact, mode] => do
+    let n ← n.toNat?
+    let edges ← parseEdges e
+    if n > 64 || edges.any (fun p => p.1 ≥ n || p.2 ≥ n) then none else
+    if !(okType stored && okType q) then none else
+    let hops ← hops.toNat?
+    if hops == 0 || hops > 4 then none else
+    let fact ← if fact == "0" then some false else if fact == "1" then some true else none
+    let count ← if mode == "rows" then some false else if mode == "count" then some true else none
+    let ci := stored.toLower == q.toLower
+    let exact := stored == q
+    -- a chain is planned for two or more hops when factorized execution is on
+    let later := if fact && hops ≥ 2 then exact else ci
+    let m := qcaseStr count (qcaseRows n edges ci later hops)
+    let sp := qcaseStr count (qcaseRows n edges ci ci hops)
+    some (mkOut m sp "fact-chain-later-hops-edge-type-case-sensitive")
+  | _ => none
+
 def handle (args : List String) : Option Out :=
   match args with
   | ["flatten", ch] => do
@@ -329,7 +366,7 @@ def handle (args : List String) : Option Out :=
             else s!"{specFlatStr (totalCols c.levels) flat} lrc={rows.length}"
           some (mkOut m sp "fact-filter")
         else some { model := m }
-    else handleChain args
-  | _ => handleChain args
+    else (handleChain args <|> handleQcase args)
+  | _ => (handleChain args <|> handleQcase args)
 
 end DriverFact
